@@ -383,7 +383,17 @@ impl<R: BufRead> LosslessDecoder<R> {
                 if one_symbol >= alphabet_size {
                     return Err(DecodingError::BitStreamError);
                 }
-                Ok(HuffmanTree::build_two_node(zero_symbol, one_symbol))
+                // The two symbols both get code length 1; as in any canonical code the smaller
+                // symbol is assigned the code word 0. A repeated symbol is a one-symbol code.
+                match zero_symbol.cmp(&one_symbol) {
+                    std::cmp::Ordering::Less => {
+                        Ok(HuffmanTree::build_two_node(zero_symbol, one_symbol))
+                    }
+                    std::cmp::Ordering::Greater => {
+                        Ok(HuffmanTree::build_two_node(one_symbol, zero_symbol))
+                    }
+                    std::cmp::Ordering::Equal => Ok(HuffmanTree::build_single_node(zero_symbol)),
+                }
             }
         } else {
             let mut code_length_code_lengths = vec![0; CODE_LENGTH_CODES];
